@@ -143,8 +143,8 @@ def replay_counts(section, data, site=None):
 def decode_progress():
     """one arbitrary iteration of Worker.decompress' loop: is there a step after which the state is unchanged?"""
     r = ObResult(bounds="Worker.decompress on a member of symbolic size with a decoder stub that may return nothing and "
-                        "consume nothing; <= 3 loop iterations observed")
-    eng = RC.mk_engine(unroll=3, unwind="assume")
+                        "consume nothing; <= 5 loop iterations observed")
+    eng = RC.mk_engine(unroll=5, unwind="assume")
     sym = RC.symbols(eng, "f")
 
     def harness(e):
@@ -245,8 +245,68 @@ def units(tier):
     M = "vf.props.c05"
     us = []
     for sec in SECTIONS:
-        for n in ((3, 5) if tier == "quick" else (3, 5, 7)):
+        for n in ({"FilesInfo": (2, 3)}.get(sec, (3, 5)) if tier == "quick" else {"FilesInfo": (2, 3, 4)}.get(sec, (3, 5, 6))):
             us.append(Unit("1.counts[%s,%d bytes]" % (sec, n), M, "counts", dict(section=sec, nbytes=n), 1800))
     us.append(Unit("2.decode_progress", M, "decode_progress", {}, 900))
+    us.append(Unit("2.encoded_header_progress", M, "encoded_header_progress", {}, 900))
     us.append(Unit("3.memory_limit", M, "memory_limit", {}, 600))
     return us
+
+
+def encoded_header_progress():
+    """the decode loop of Header._read for an encoded header, with a decoder that may run dry"""
+    from vf.harness import refwriter as W
+    from vf.harness.session import LayoutFile
+    from vf.pysym import tokens
+
+    r = ObResult(bounds="Header._read on an encoded header (1 folder) whose declared size is symbolic; decoder stub may "
+                        "return nothing and consume nothing; <= 5 loop iterations observed")
+    eng = RC.mk_engine()
+    eng.loop_limits[(AI, "Header._read")] = (5, "assume")
+    usize, psize = eng.sym_int("header_unpack_size", 40), eng.sym_int("header_pack_size", 40)
+
+    def harness(e):
+        w = X.World(e, "adversarial", 3, "arbitrary")
+        X.install_read_stubs(e, w)
+        w.folder_total[0] = usize
+        w.folder_of_coders = lambda coders: 0
+        o = W.Out(e)
+        o.byte(23)  # kEncodedHeader
+        o.byte(6); o.num(0); o.num(1); o.byte(9); o.num(psize); o.byte(0)          # PackInfo
+        o.byte(7); o.byte(11); o.num(1); o.byte(0); o.num(1); o.byte(1); o.byte(0x21)  # one folder, one coder
+        o.byte(12); o.num(usize); o.byte(0)                                         # unpack size, end
+        o.byte(0)
+        buf = SFile(o.items)
+        fp = LayoutFile(e, [0] * 32, psize, [])
+        h = e.new(e.cls(AI, "Header"))
+        try:
+            e.method(h, "_read", fp, buf, 32, None)
+        except ModelRaise as ex:
+            return dict(exc=ex.name)
+        except X.NoProgress as ex:
+            return dict(stall=str(ex))
+        return dict(ok=True)
+
+    decide(eng, harness, lambda o: [not ("stall" in o)], {"header_unpack_size": usize, "header_pack_size": psize}, r, max_cex=1,
+           describe=lambda o: str(o)[:80])
+    r.note = (r.note + " cut_paths=%d" % eng.cut_paths).strip()
+    _cex(r, "encoded_header_progress", lambda w_: dict(module="vf.props.c05", func="replay_encoded_progress", kwargs={}),
+         signature=lambda w_: {"obligation": "encoded_header_progress"})
+    return r
+
+
+def replay_encoded_progress():
+    """an archive whose encoded header is a Copy-coded stream shorter than its declared size"""
+    import subprocess
+    import sys
+
+    code = ("import io,sys\nsys.path.insert(0,'/verif')\nimport py7zr\nfrom vf.harness import refwriter as W\n"
+            "inner=bytes([1,0])\n"
+            "enc=bytes([23,6,0,1,9,len(inner),0,7,11,1,0,1,1,0,12,len(inner)+8,0,0])\n"
+            "img=W.seal(enc, inner)\n"
+            "try:\n    py7zr.SevenZipFile(io.BytesIO(img)).getnames()\n    print('RETURNED')\nexcept Exception as e:\n    print('RAISED',type(e).__name__)\n")
+    try:
+        out = subprocess.run([sys.executable, "-c", code], capture_output=True, text=True, timeout=15)
+        return False, "opening ended: %s" % (out.stdout.strip() or out.stderr.strip()[-300:])
+    except subprocess.TimeoutExpired:
+        return True, "opening an archive whose encoded header stream is shorter than declared did not return within 15 s"
